@@ -83,29 +83,32 @@ def v1_fee_bps(row, token, usdg_delta: int, increase: bool, base=25, tax=60) -> 
     return base + tax * avg // target
 
 
-def v1_mint(row, token, amount_tokens: Fraction):
-    """GLP minted for `amount_tokens` of token: (glp tokens as Fraction, fee bps)."""
+def v1_mint(row, token, amount_tokens: Fraction, bps=None):
+    """GLP minted for `amount_tokens` of token: (glp tokens as Fraction, fee bps). bps: charge this fee instead of the rule's
+    (the property allows the fee to be within one basis point of the rule; the amounts then follow from the fee charged)."""
     n = token.name.lower()
     price = int(row[f"{n}_price"])
     wei = int(amount_tokens * 10**token.decimal)
     usdg_gross = wei * price // P30 * 10**18 // 10**token.decimal
-    bps = v1_fee_bps(row, token, usdg_gross, True)
-    after_fee = wei * (10000 - bps) // 10000
+    if bps is None:
+        bps = v1_fee_bps(row, token, usdg_gross, True)
+    after_fee = int(wei * (10000 - Fraction(bps)) / 10000)
     usdg = after_fee * price // P30 * 10**18 // 10**token.decimal
     aum_in_usdg = int(Decimal(row["aum"]) / Decimal(10**12))
     supply = int(row["glp"])
     return Fraction(usdg * supply // aum_in_usdg, 10**18), bps
 
 
-def v1_redeem(row, token, glp_tokens: Fraction):
+def v1_redeem(row, token, glp_tokens: Fraction, bps=None):
     n = token.name.lower()
     price = int(row[f"{n}_price"])
     aum_in_usdg = int(Decimal(row["aum"]) / Decimal(10**12))
     supply = int(row["glp"])
     usdg = int(glp_tokens * 10**18) * aum_in_usdg // supply
     redemption = usdg * P30 // price * 10**token.decimal // 10**18  # token wei
-    bps = v1_fee_bps(row, token, usdg, False)
-    out = redemption * (10000 - bps) // 10000
+    if bps is None:
+        bps = v1_fee_bps(row, token, usdg, False)
+    out = int(redemption * (10000 - Fraction(bps)) / 10000)
     return Fraction(out, 10**token.decimal), bps
 
 
